@@ -457,7 +457,10 @@ class Parser:
             out.append(defs.MathBeginToken(tok.pos, name, env))
             return out
         if env.remove:
+            # text separated by footnotes etc. is removed, too
+            extracted = len(self.extracted)
             out += self.expand_sequence(buf, env_stop=name)
+            del self.extracted[extracted:]
         return out
 
     #   close an environment
